@@ -372,9 +372,9 @@ def run_flows(desc):
         if name in undecided:
             continue
         others = [n for n in vals if n != name]
-        how, err = observe(lambda: mfa.check_flows(exceptions=others, raise_error=True))
+        how, err = observe(lambda: mfa.check_flows(exceptions=others, raise_error=True, verbose=bool(desc.get("verbose"))))
         if how == "raised" and getattr(err, "_verif_crash", False):
-            raise Violation("check_flows-crashes-" + ("no-stocks" if not stocks else "other"), f"{type(err).__name__}: {str(err)[:100]}; {ctx}")
+            raise Violation("check_flows-crashes-" + ("no-stocks" if not stocks and not desc.get("verbose") else ("verbose" if desc.get("verbose") else "other")), f"{type(err).__name__}: {str(err)[:100]}; {ctx}")
         flagged = how == "raised"
         if name in expected and not flagged:
             raise Violation("check_flows-misses-flow", f"{name} holds {'NaN' if np.any(np.isnan(vals[name])) else 'an entry below -tolerance'} but was not flagged; {ctx}")
@@ -382,11 +382,11 @@ def run_flows(desc):
             raise Violation("check_flows-flags-clean-flow", f"{name}: min {float(np.nanmin(vals[name]))!r}; {ctx}")
     if not undecided:
         for raise_error in (True, False):
-            how, err = observe(lambda: mfa.check_flows(raise_error=raise_error))
+            how, err = observe(lambda: mfa.check_flows(raise_error=raise_error, verbose=bool(desc.get("verbose"))))
             flagged = how in ("raised", "warned")
             require(flagged == bool(expected), "check_flows-overall-verdict", f"{how} with raise_error={raise_error}; {ctx}")
             if not raise_error:
-                require(how != "raised", "check_flows-raises-in-warn-mode", ctx)
+                require(how != "raised", "check_flows-crashes-verbose" if desc.get("verbose") else "check_flows-raises-in-warn-mode", f"{type(err).__name__ if err else ''}: {str(err)[:80]}; {ctx}")
         # excepted flows are never reported
         how, err = observe(lambda: mfa.check_flows(exceptions=sorted(vals), raise_error=True))
         require(how == "ok", "check_flows-reports-excepted-flow", ctx)
@@ -403,7 +403,7 @@ def flow_cases(draw):
         {"flow": draw(st.integers(0, 10)), "pos": draw(st.integers(0, 50)), "kind": draw(st.sampled_from(["nan", "neg", "neg", "just-below", "just-above", "just-above"]))}
         for _ in range(draw(st.integers(0, 3)))
     ]
-    return {"universe": U, "nproc": nproc, "flows": flows, "stocks": stocks, "edits": edits, "bigstock": draw(st.sampled_from([None, None, 30]))}
+    return {"universe": U, "nproc": nproc, "flows": flows, "stocks": stocks, "edits": edits, "bigstock": draw(st.sampled_from([None, None, 30])), "verbose": draw(st.booleans())}
 
 
 class Flows(Facet):
